@@ -11,9 +11,9 @@ CHECKS = {
    note="Trusts: the verifsync shim (same semantics as sync/atomic plus yields), porcupine, and that critical sections are atomic units (no yields inside a section). Eviction legality is over-approximated, so only safety clauses are decided."),
  "C15": dict(
    level="exploration", design="§3 C15",
-   technique="deterministic simulation: seeded cooperative scheduler parks packs inside their consume callbacks (overlap/nesting of pooled state); dns.Msg.Pack as reference",
-   text="Seeded search over per-task pack operations and schedules: packs overlap and nest while sharing the pool; each pack is compared byte-for-byte with the library, the message is compared with a snapshot, buffers are checked for aliasing and exposed capacity, and declined messages must have produced no output. Byte parity over all message structures is sampled only.",
-   note="Trusts miekg/dns Pack as the reference and the message generator's reach; overlap happens only at the consume callback."),
+   technique="deterministic simulation: seeded cooperative scheduler parks packs inside their consume callbacks and in front of every record they write (overlap/nesting of pooled state, half-done packs of shared messages); dns.Msg.Pack as reference",
+   text="Seeded search over per-task pack operations and schedules: packs overlap and nest while sharing the pool; each pack is compared byte-for-byte with the library, the message is compared with a snapshot (shared messages also while another task's pack of them is half done), buffers are checked for aliasing and exposed capacity, and declined messages must have produced no output. Byte parity over all message structures is sampled only.",
+   note="Trusts miekg/dns Pack as the reference and the message generator's reach; overlap happens at the consume callback and in front of each record the packer writes, nowhere else inside a pack."),
  "C09": dict(
    level="fault_enumeration", design="§3 C09",
    technique="deterministic simulation: real Resolver/AutoTA on fake clock (synctest) + simulated network and disk; per-history enumeration of crash points and disk errors; RFC 5011 reference state machine as oracle",
@@ -37,7 +37,7 @@ CHECKS = {
  "C07": dict(
    level="exploration", design="§3 C07",
    technique="deterministic simulation: full chain + real resolver over simulated network with an adversarial authoritative server and spoofed datagrams; ground truth + provenance marks + dial log as oracle",
-   text="Seeded search over unsigned hierarchies in which one zone's legitimately authoritative servers apply subsets of 11 adversarial behaviours (out-of-zone records in every section, CNAME continued out of zone, sideways/upward/self/mixed referrals, loopback or out-of-zone glue) with owner names in mixed letter case, optionally timed against the expiry of the zone's own delegation lease, while wrong-ID / wrong-question datagrams are injected ahead of genuine replies; histories alternate trigger questions under that zone with questions for victim names. Victim replies must equal ground truth, attacker-marked data must never be attached to a name outside the zone, no loopback/local dial, no victim question to the attacker's address, and no query at all to the attacker's server unless an acceptable referral names it.",
+   text="Seeded search over unsigned hierarchies in which one zone's legitimately authoritative servers apply subsets of 14 adversarial behaviours (out-of-zone records in every section, CNAME continued out of zone, sideways/upward/self/mixed/other-class referrals, loopback or out-of-zone glue) with owner names in mixed letter case, optionally timed against the expiry of the zone's own delegation lease, while wrong-ID / wrong-question datagrams are injected ahead of genuine replies; histories alternate trigger questions under that zone with questions for victim names. Victim replies must equal ground truth, attacker-marked data must never be attached to a name outside the zone, no loopback/local dial, no victim question to the attacker's address, and no query at all to the attacker's server unless an acceptable referral names it.",
    note="DNSSEC is off so only bailiwick rules protect the victim. Names inside the adversary's zone are not judged. Adversary and ancestors never share a server (it would then speak with the ancestor's authority)."),
  "C12": dict(
    level="exploration", design="§3 C12",
